@@ -168,6 +168,52 @@ def RevertJEqualsPrefixStatement : Prop :=
         ∀ tgt, (p0 :: l.map (·.2))[h.length - j]? = some tgt →
           PlainEq (applyChangeset (toPlainState (revertN s.bundle j) known) p0) tgt
 
+/-! ## decidable region of C17's second sentence (`revert(j)` = prefix bundle) -/
+
+/-- `BundleState::revert_latest` applies a storage-wiping `AccountRevert` exactly only when the revert lists
+no slot and the bundle account it is applied to holds no slot entries (findings F2a / F2b: `BundleAccount::revert`
+ignores `wipe_storage`, so original values and stale entries are not restored) -/
+def wipeOk (b? : Option BAcct) (r : ARevert) : Bool :=
+  !r.wipe || (r.storage.isEmpty && (match b? with | some b => b.storage.isEmpty | none => true))
+
+/-- every revert of the latest block is in that region -/
+def revertStepOk (b : BState) : Bool :=
+  match b.reverts.getLast? with
+  | none => true
+  | some blk => blk.all (fun e => wipeOk (b.state.get e.1) e.2)
+
+/-- every one of the j `revert_latest` steps of `revert(j)` is in that region -/
+def revertOk (b : BState) : Nat → Bool
+  | 0 => true
+  | j + 1 => revertStepOk b && (if (revertLatest b).2 then revertOk (revertLatest b).1 j else true)
+
+/-- simpler sufficient condition: none of the last j blocks holds a storage-wiping revert -/
+def noWipeInLast (b : BState) (j : Nat) : Bool :=
+  (b.reverts.drop (b.reverts.length - j)).all (fun blk => blk.all (fun e => !e.2.wipe))
+
+/-! ## decidable regions of C17 (first sentence, literal reading) and C18 (pre-values after `extend`) -/
+
+/-- no wiping revert of the block lists a `Destroyed` slot (outside this region the literal reading of
+`RevertToSlot::Destroyed` as zero is wrong: finding F1) -/
+def literalOk (blk : BMap ARevert) : Bool :=
+  blk.all (fun e => !e.2.wipe || e.2.storage.all (fun s => s.2 != RevSlot.destroyed))
+
+/-- region outside finding F4 (decidable): no storage-wiping revert of the second bundle lists as `Destroyed`
+a slot that the first bundle's account of the same address holds -/
+def extendOk (b1 b2 : BState) : Bool :=
+  b2.reverts.all (fun blk => blk.all (fun e => !e.2.wipe ||
+    match b1.state.get e.1 with
+    | none => true
+    | some ta => e.2.storage.all (fun s => s.2 != RevSlot.destroyed || (ta.storage.get s.1).isNone)))
+
+/-- region in which `revert(j)` on `extend(b1, b2)` is claimed by the correspondence oracle (outside finding F5:
+the reverts of the second half carry `previous_status` of the second `State`'s cache, so an account that the
+first bundle holds with a destroyed status loses its wipe): j reaches into the second half only, none of the
+reverted blocks holds a storage-wiping revert, and no account destroyed in the first bundle is present in the second -/
+def extRevertOk (b1 b2 : BState) (j : Nat) : Bool :=
+  decide (j ≤ b2.reverts.length) && noWipeInLast b2 j &&
+  b1.state.all (fun e => !e.2.status.wasDestroyed || (b2.state.get e.1).isNone)
+
 /-- **C18, full statement** (split by a fresh `State` over the committed first half): the extended
 bundle describes the same post-state and the same per-block pre-values as the monolithic one. -/
 def ExtendStatement (dbReading : Bool) : Prop :=
